@@ -189,8 +189,8 @@ var oneReq rngIn // request of `fstree c11one`
 // noPut is a blob storage that is full: the write-cache cannot flush into it.
 type noPut struct{ common.Storage }
 
-func (noPut) Put(oid.Address, []byte) error           { return common.ErrNoSpace }
-func (noPut) PutBatch(map[oid.Address][]byte) error   { return common.ErrNoSpace }
+func (noPut) Put(oid.Address, []byte) error         { return common.ErrNoSpace }
+func (noPut) PutBatch(map[oid.Address][]byte) error { return common.ErrNoSpace }
 
 type bytesRC struct {
 	b []byte
